@@ -29,6 +29,20 @@
 (* stores send hints (real stores always do).  HintKeyed = FALSE is the    *)
 (* intended design (hint stripped).  The emitted Allowed sets never depend *)
 (* on HintKeyed: they are the required behaviour.                          *)
+(*                                                                         *)
+(* config.ShuffleReplicas is a dimension of the scenario (sc.shuffle):     *)
+(* searchShard then tries the replicas in the order util.IdxShuffle drew,  *)
+(* so Allowed is also the union over every order of every shard, and the   *)
+(* reference speaks about "the shards that had an answering replica" under *)
+(* some draw (Honest) and, when hosts only answer or fail, about nothing    *)
+(* but WHICH replicas answer (OnlyWhoAnswers).  Part 4 (Family = "shard")  *)
+(* is searchShard at statement granularity, run by several searches at the *)
+(* same time over the one replica list the proxy was configured with: that *)
+(* list never changes (ReplicaSetConstant), a search asks every replica at *)
+(* most once and gives a shard up only after all of them refused           *)
+(* (ShardEachOnce, ShardHonest), and its result is the atomic ShardRes of  *)
+(* Part 1 (ShardSummary).  InPlace = TRUE is the variant that shuffles the *)
+(* shared list itself with unsynchronised swaps: TLC must reject it.       *)
 (***************************************************************************)
 EXTENDS Integers, Sequences, FiniteSets, TLC, Json, Randomization
 
@@ -40,10 +54,14 @@ CONSTANTS Family,     \* "search" | "merge" | "fetch" | "store" | "rand"
           Sizes, Offsets, Orders, Hints,
           FBKinds,    \* fetch behaviour kinds
           MaxFaulty,  \* at most this many sources with a non-ok fetch behaviour
-          HintKeyed
+          HintKeyed,
+          Shuffles,   \* subset of BOOLEAN: config.ShuffleReplicas of the search ingestor
+          ShardReps, ShardProcs, ShardFlips,   \* Part 4: replicas of the shard, concurrent searches, up/down changes
+          InPlace     \* Part 4: FALSE = searchShard as pinned (private index permutation); TRUE = shuffles `hosts` itself
 
-VARIABLES sc, stage, alw     \* alw = Allowed(sc), computed once on entering the final stage
-vars == <<sc, stage, alw>>
+VARIABLES sc, stage, alw,    \* alw = Allowed(sc), computed once on entering the final stage
+          cs                 \* Part 4 only (Family = "shard"): shared replica list, host states, the searches in flight
+vars == <<sc, stage, alw, cs>>
 
 \* ---------------------------------------------------------------- utilities
 Min2(a, b) == IF a < b THEN a ELSE b
@@ -83,22 +101,28 @@ TmuB == {"tmu", "tmumsg"}     \* code TOO_MANY_UNIQ_VALUES | legacy text
 (***************************************************************************)
 (* Part 1 - search.  proxy/search/ingestor.go                              *)
 (***************************************************************************)
-\* searchShard (ShuffleReplicas = false): replicas in order; a plain error moves on to the next replica,
-\* the special answers short-circuit the shard.
-ShardRes(sb, shard) ==
+\* util.IdxFill / util.IdxShuffle: the orders in which searchShard may try the n replicas of a shard.  The
+\* permutation is private to the call; the replica list itself is only read (Part 4).
+IdxFill(n) == [i \in 1..n |-> i]
+ReplicaOrders(n, shuffle) == IF shuffle THEN Perms(1..n) ELSE {IdxFill(n)}
+\* searchShard: replicas in the order idx; a plain error moves on to the next replica, the special answers
+\* short-circuit the shard.
+ShardRes(sb, shard, idx) ==
   LET RECURSIVE go(_)
       go(i) == IF i > Len(shard) THEN [k |-> "fail", host |-> ""]          \* util.DeduplicateErrors(errs)
-               ELSE LET b == sb[shard[i]] IN
+               ELSE LET b == sb[shard[idx[i]]] IN
                     IF b = "err" THEN go(i + 1)
                     ELSE IF b \in OldB THEN [k |-> "old", host |-> ""]      \* "hot store refuses"
                     ELSE IF b \in TmuB THEN [k |-> "fail", host |-> ""]     \* "store forbids aggregation request"
                     ELSE IF b = "tmf" THEN [k |-> "tmf", host |-> ""]       \* "store forbids request"
-                    ELSE [k |-> "ans", host |-> shard[i]]
+                    ELSE [k |-> "ans", host |-> shard[idx[i]]]
   IN go(1)
+\* every result a shard can come to
+ShardResults(sb, shard, shuffle) == {ShardRes(sb, shard, idx) : idx \in ReplicaOrders(Len(shard), shuffle)}
 
-\* searchStores: one goroutine per shard, responses consumed in arrival order `arr`; wants-old-data and
-\* too-many-fractions return at once, other errors are collected.
-RunTier(sb, shards, arr) ==
+\* searchStores: one goroutine per shard (res[i] = what searchShard returned for shard i), responses consumed
+\* in arrival order `arr`; wants-old-data and too-many-fractions return at once, other errors are collected.
+RunTier(res, arr) ==
   LET RECURSIVE loop(_, _, _)
       loop(i, qprs, nerr) ==
         IF i > Len(arr)
@@ -106,21 +130,23 @@ RunTier(sb, shards, arr) ==
                   THEN (IF qprs # <<>> THEN [k |-> "partial", cls |-> "", hosts |-> qprs]     \* ErrPartialResponse
                         ELSE [k |-> "error", cls |-> "other", hosts |-> <<>>])
                   ELSE [k |-> "complete", cls |-> "", hosts |-> qprs])
-          ELSE LET r == ShardRes(sb, shards[arr[i]]) IN
+          ELSE LET r == res[arr[i]] IN
                IF r.k = "old" THEN [k |-> "error", cls |-> "old", hosts |-> <<>>]
                ELSE IF r.k = "tmf" THEN [k |-> "error", cls |-> "tmf", hosts |-> <<>>]
                ELSE IF r.k = "fail" THEN loop(i + 1, qprs, nerr + 1)
                ELSE loop(i + 1, Append(qprs, r.host), nerr)
   IN loop(1, <<>>, 0)
-TierOutcomes(sb, shards, tier) ==
-  {LET o == RunTier(sb, shards, a) IN [k |-> o.k, cls |-> o.cls, hosts |-> Range(o.hosts), tier |-> tier] :
-     a \in Perms(DOMAIN shards)}
+TierOutcomes(sb, shards, tier, shuffle) ==
+  LET SR == [i \in DOMAIN shards |-> ShardResults(sb, shards[i], shuffle)]
+      draws == {f \in [DOMAIN shards -> UNION {SR[i] : i \in DOMAIN shards}] : \A i \in DOMAIN shards : f[i] \in SR[i]}
+  IN {LET o == RunTier(f, a) IN [k |-> o.k, cls |-> o.cls, hosts |-> Range(o.hosts), tier |-> tier] :
+        a \in Perms(DOMAIN shards), f \in draws}
 
 \* Ingestor.Search up to MergeQPRs: hot tier (HotReadStores if configured, else HotStores; the driver
 \* configures a decoy for the other one), cold tier iff the hot tier ended in wants-old-data.
 SearchOutcomes(s) ==
-  UNION {IF o.k = "error" /\ o.cls = "old" /\ s.cold # <<>> THEN TierOutcomes(s.sb, s.cold, "cold") ELSE {o} :
-           o \in TierOutcomes(s.sb, s.hot, "hot")}
+  UNION {IF o.k = "error" /\ o.cls = "old" /\ s.cold # <<>> THEN TierOutcomes(s.sb, s.cold, "cold", s.shuffle) ELSE {o} :
+           o \in TierOutcomes(s.sb, s.hot, "hot", s.shuffle)}
 
 Lim(s) == s.req.size + s.req.offset
 \* what a store returns: its result set in the requested order, cut to size+offset (storeapi doSearch: limit)
@@ -272,14 +298,24 @@ AlgoDocs(s, Q, perm, hintKeyed) ==
 (***************************************************************************)
 (* Part 3 - reference (what the property demands)                          *)
 (***************************************************************************)
-\* a shard has an answering replica: the first replica that does not fail with a plain error answers
-Answered(s, shard) == \E r \in DOMAIN shard : s.sb[shard[r]] \in OkB /\ \A q \in 1..(r - 1) : s.sb[shard[q]] = "err"
-AnswerHost(s, shard) == shard[CHOOSE r \in DOMAIN shard : s.sb[shard[r]] \in OkB /\ \A q \in 1..(r - 1) : s.sb[shard[q]] = "err"]
-FirstSays(s, shard, B) == \E r \in DOMAIN shard : s.sb[shard[r]] \in B /\ \A q \in 1..(r - 1) : s.sb[shard[q]] = "err"
-AnsweringHosts(s, T) == {AnswerHost(s, T[i]) : i \in {j \in DOMAIN T : Answered(s, T[j])}}
+\* a shard has an answering replica: in the order idx its replicas are tried, the first one that does not fail
+\* with a plain error answers.  A draw d gives every shard of a tier its order (the configured one unless
+\* ShuffleReplicas).
+FirstSays(s, shard, idx, B) == \E r \in DOMAIN idx : s.sb[shard[idx[r]]] \in B /\ \A q \in 1..(r - 1) : s.sb[shard[idx[q]]] = "err"
+Answered(s, shard, idx) == FirstSays(s, shard, idx, OkB)
+AnswerHost(s, shard, idx) == shard[idx[CHOOSE r \in DOMAIN idx : s.sb[shard[idx[r]]] \in OkB /\ \A q \in 1..(r - 1) : s.sb[shard[idx[q]]] = "err"]]
+OrdersOf(s, shard) == ReplicaOrders(Len(shard), s.shuffle)
+Draws(s, T) == {d \in [DOMAIN T -> UNION {OrdersOf(s, T[i]) : i \in DOMAIN T}] : \A i \in DOMAIN T : d[i] \in OrdersOf(s, T[i])}
+AnsweringHosts(s, T, d) == {AnswerHost(s, T[i], d[i]) : i \in {j \in DOMAIN T : Answered(s, T[j], d[j])}}
+\* may / must over the orders (the same thing unless ShuffleReplicas)
+MaySay(s, T, B) == \E i \in DOMAIN T : \E idx \in OrdersOf(s, T[i]) : FirstSays(s, T[i], idx, B)
+MustSay(s, T, B) == \E i \in DOMAIN T : \A idx \in OrdersOf(s, T[i]) : FirstSays(s, T[i], idx, B)
+AlwaysAnswers(s, shard) == \A idx \in OrdersOf(s, shard) : Answered(s, shard, idx)
 \* the correct top of the merged result over the FULL result sets of the answering shards
-RefIDs(s, T) == LET U == UNION {s.data[h] : h \in AnsweringHosts(s, T)} IN
-                Take(Drop(Sorted(U, s.req.order), s.req.offset), s.req.size)
+RefIDs(s, T, d) == LET U == UNION {s.data[h] : h \in AnsweringHosts(s, T, d)} IN
+                   Take(Drop(Sorted(U, s.req.order), s.req.offset), s.req.size)
+\* the replicas of a shard that answer when asked
+UpOf(s, shard) == {h \in Range(shard) : s.sb[h] \in OkB}
 
 \* documents a source delivered in request order: walk the blocks, accept a block whose ID is requested at
 \* or after the next expected index.  Set of <<request index, block index>>.
@@ -342,18 +378,19 @@ FetchTable(s) ==
 (* Scenario space                                                          *)
 (***************************************************************************)
 AllHosts(hot, cold) == HostsOf(hot) \cup HostsOf(cold)
-\* behaviours of the replicas of one shard; replicas behind the first one that does not fail plainly are
-\* never asked, so they get the canonical behaviour "ok" (the driver reports any call that contradicts this
-\* through the result: every host has its own data)
-ShardSeqs(nr) == {q \in [1..nr -> SBs] : \A i \in 1..nr : (\E j \in 1..(i - 1) : q[j] # "err") => q[i] = "ok"}
+\* behaviours of the replicas of one shard; without ShuffleReplicas the replicas behind the first one that
+\* does not fail plainly are never asked, so they get the canonical behaviour "ok" (the driver reports any call
+\* that contradicts this through the result: every host has its own data); with ShuffleReplicas any replica
+\* may be the first one, so every assignment is a scenario of its own
+ShardSeqs(nr, sh) == {q \in [1..nr -> SBs] : sh \/ \A i \in 1..nr : (\E j \in 1..(i - 1) : q[j] # "err") => q[i] = "ok"}
 AllOkAsg(ns, nr) == [s \in 1..ns |-> [r \in 1..nr |-> "ok"]]
-DeclaresOld(asg) == \E s \in DOMAIN asg : \E r \in DOMAIN asg[s] : asg[s][r] \in OldB /\ \A q \in 1..(r - 1) : asg[s][q] = "err"
-HotAsgs(t) ==
-  CASE Family = "search" -> [1..HS(t) -> ShardSeqs(HR(t))]
+DeclaresOld(asg, sh) == \E s \in DOMAIN asg : \E r \in DOMAIN asg[s] : asg[s][r] \in OldB /\ (sh \/ \A q \in 1..(r - 1) : asg[s][q] = "err")
+HotAsgs(t, sh) ==
+  CASE Family = "search" -> [1..HS(t) -> ShardSeqs(HR(t), sh)]
     [] Family = "merge" -> {AllOkAsg(HS(t), HR(t))} \cup {[s \in 1..HS(t) |-> [r \in 1..HR(t) |-> IF s = f THEN "err" ELSE "ok"]] : f \in 1..HS(t)}
     [] OTHER -> {AllOkAsg(HS(t), HR(t))}
-ColdAsgs(t, ha) ==
-  IF Family = "search" /\ CS(t) > 0 /\ DeclaresOld(ha) THEN [1..CS(t) -> ShardSeqs(CR(t))] ELSE {AllOkAsg(CS(t), CR(t))}
+ColdAsgs(t, ha, sh) ==
+  IF Family = "search" /\ CS(t) > 0 /\ DeclaresOld(ha, sh) THEN [1..CS(t) -> ShardSeqs(CR(t), sh)] ELSE {AllOkAsg(CS(t), CR(t))}
 MkSB(hot, cold, ha, ca) ==
   [h \in AllHosts(hot, cold) |-> IF h \in HostsOf(hot) THEN ha[SOf(hot, h)][ROf(hot, h)] ELSE ca[SOf(cold, h)][ROf(cold, h)]]
 
@@ -407,7 +444,7 @@ RandU == {<<m, r>> : m \in 1..6, r \in 1..2}
 RandScenario(z) ==
   LET t == Pick(Topos)
       hot == HotOf(t)  cold == ColdOf(t)  H == AllHosts(hot, cold)
-  IN [topo |-> t, hot |-> hot, cold |-> cold, hotread |-> Pick(HotReads),
+  IN [topo |-> t, hot |-> hot, cold |-> cold, hotread |-> Pick(HotReads), shuffle |-> Pick(Shuffles),
       sb |-> [h \in H |-> RandSB(h)],
       data |-> [h \in H |-> RandomSubset(Pick(0..3), RandU)],
       req |-> [size |-> Pick(Sizes), offset |-> Pick(Offsets), order |-> Pick(Orders)],
@@ -415,30 +452,81 @@ RandScenario(z) ==
       fb |-> [h \in H |-> RandFB(h)], store |-> NoStore]
 
 \* ---- behaviour: stage 0 -> 1 (topology, search behaviours) -> 2 (data, request, hint, fetch behaviours) -> 3
-Init == stage = 0 /\ sc = <<>> /\ alw = {}
-Step1 == /\ stage = 0 /\ Family # "rand"
-         /\ \E t \in Topos, hr \in HotReads :
+Step1 == /\ stage = 0 /\ Family \notin {"rand", "shard"}
+         /\ \E t \in Topos, hr \in HotReads, sh \in Shuffles :
               LET hot == HotOf(t)  cold == ColdOf(t) IN
-              \E ha \in HotAsgs(t) : \E ca \in ColdAsgs(t, ha) :
-                sc' = [topo |-> t, hot |-> hot, cold |-> cold, hotread |-> hr, sb |-> MkSB(hot, cold, ha, ca)]
-         /\ stage' = 1 /\ alw' = {}
+              \E ha \in HotAsgs(t, sh) : \E ca \in ColdAsgs(t, ha, sh) :
+                sc' = [topo |-> t, hot |-> hot, cold |-> cold, hotread |-> hr, shuffle |-> sh, sb |-> MkSB(hot, cold, ha, ca)]
+         /\ stage' = 1 /\ alw' = {} /\ UNCHANGED cs
 Step2 == /\ stage = 1
          /\ \E d \in DataChoices(sc.hot, sc.cold), sz \in Sizes, off \in Offsets, ord \in Orders, hint \in Hints :
               \E fb \in FBChoices(sc.hot, sc.cold), st \in StoreChoices :
-                sc' = [topo |-> sc.topo, hot |-> sc.hot, cold |-> sc.cold, hotread |-> sc.hotread,
+                sc' = [topo |-> sc.topo, hot |-> sc.hot, cold |-> sc.cold, hotread |-> sc.hotread, shuffle |-> sc.shuffle,
                        sb |-> IF st.mode = "fake" THEN sc.sb
                               ELSE [sc.sb EXCEPT ![sc.hot[1][1]] = IF StoreRefuses(st) THEN "old" ELSE "ok"],
                        data |-> IF st.mode = "fake" THEN d ELSE [d EXCEPT ![sc.hot[1][1]] = StoreData],
                        req |-> [size |-> sz, offset |-> off, order |-> ord], hint |-> hint, fb |-> fb, store |-> st]
-         /\ stage' = 2 /\ alw' = {}
+         /\ stage' = 2 /\ alw' = {} /\ UNCHANGED cs
 \* stage 3 repeats the scenario: the invariants and the emission are evaluated there, one successor per
 \* state, so that TLC's workers share the expensive part
-Step3 == stage = 2 /\ stage' = 3 /\ UNCHANGED sc /\ alw' = Allowed(sc)
+Step3 == stage = 2 /\ stage' = 3 /\ UNCHANGED <<sc, cs>> /\ alw' = Allowed(sc)
 StepRand == /\ Family = "rand"
             /\ sc' = RandScenario(stage)
             /\ stage' = 3
             /\ alw' = Allowed(sc')
-Next == Step1 \/ Step2 \/ Step3 \/ StepRand
+            /\ UNCHANGED cs
+
+(***************************************************************************)
+(* Part 4 - one shard, several searches at the same time.  ingestor.go     *)
+(* searchStores hands searchShard the slice config.<tier>.Shards[k] itself *)
+(* (`hosts`): every request the proxy serves works on that one list.  One  *)
+(* action per statement of searchShard that touches shared memory or a     *)
+(* store.  Hosts go down and come up while searches run (ShardFlips).      *)
+(***************************************************************************)
+ShReps == [r \in 1..ShardReps |-> HN("h", 1, r)]      \* the replica list the proxy was configured with
+ShProcs == 1..ShardProcs
+ShIdle == [pc |-> "idle", idx |-> <<>>, i |-> 0, j |-> 0, ta |-> "", tb |-> "", asked |-> <<>>, res |-> "", stable |-> TRUE]
+ShardInits == {[hosts |-> ShReps, up |-> u, flips |-> ShardFlips, p |-> [x \in ShProcs |-> ShIdle]] : u \in [Range(ShReps) -> BOOLEAN]}
+ShSet(x, r) == cs' = [cs EXCEPT !.p[x] = r]
+\* `if si.config.ShuffleReplicas { idx = util.IdxShuffle(len(hosts)) }`: a fresh permutation owned by this call.
+\* InPlace: rand.Shuffle(len(hosts), swap hosts[i], hosts[j]) - i runs from the last element down to the second
+ShBegin(x) == /\ cs.p[x].pc = "idle"
+              /\ IF InPlace
+                   THEN ShSet(x, [ShIdle EXCEPT !.pc = IF ShardReps > 1 THEN "pick" ELSE "loop", !.i = IF ShardReps > 1 THEN ShardReps ELSE 1])
+                   ELSE \E idx \in Perms(1..ShardReps) : ShSet(x, [ShIdle EXCEPT !.pc = "loop", !.idx = idx, !.i = 1])
+\* InPlace only.  j := rand.Intn(i+1); hosts[i], hosts[j] = hosts[j], hosts[i] is two loads and two stores of
+\* shared memory, nothing orders them with the loads and stores of another request
+ShPick(x) == /\ cs.p[x].pc = "pick" /\ \E j \in 1..cs.p[x].i : ShSet(x, [cs.p[x] EXCEPT !.pc = "rd1", !.j = j])
+ShRd1(x) == cs.p[x].pc = "rd1" /\ ShSet(x, [cs.p[x] EXCEPT !.pc = "rd2", !.ta = cs.hosts[cs.p[x].j]])
+ShRd2(x) == cs.p[x].pc = "rd2" /\ ShSet(x, [cs.p[x] EXCEPT !.pc = "wr1", !.tb = cs.hosts[cs.p[x].i]])
+ShWr1(x) == /\ cs.p[x].pc = "wr1"
+            /\ cs' = [cs EXCEPT !.hosts[cs.p[x].i] = cs.p[x].ta, !.p[x].pc = "wr2"]
+ShWr2(x) == /\ cs.p[x].pc = "wr2"
+            /\ cs' = [cs EXCEPT !.hosts[cs.p[x].j] = cs.p[x].tb,
+                                 !.p[x].pc = IF cs.p[x].i > 2 THEN "pick" ELSE "loop",
+                                 !.p[x].i = IF cs.p[x].i > 2 THEN cs.p[x].i - 1 ELSE 1]
+\* `host := hosts[idx[i]]` (InPlace: `for _, host := range hosts`) + searchHost: an answer ends the call, an
+\* error moves on to the next replica
+ShAsk(x) == LET q == cs.p[x] IN
+            /\ q.pc = "loop" /\ q.i <= Len(cs.hosts)
+            /\ LET h == IF InPlace THEN cs.hosts[q.i] ELSE cs.hosts[q.idx[q.i]] IN
+               ShSet(x, [q EXCEPT !.asked = Append(@, <<h, cs.up[h]>>),
+                                  !.pc = IF cs.up[h] THEN "done" ELSE "loop",
+                                  !.res = IF cs.up[h] THEN h ELSE "",
+                                  !.i = IF cs.up[h] THEN @ ELSE @ + 1])
+\* `return nil, 0, util.DeduplicateErrors(errs)`: every replica refused, the shard did not answer
+ShFail(x) == LET q == cs.p[x] IN
+             q.pc = "loop" /\ q.i > Len(cs.hosts) /\ ShSet(x, [q EXCEPT !.pc = "done", !.res = "fail"])
+\* a store goes down or comes back; the searches that have begun are no longer searches of one failure pattern
+ShFlip(h) == /\ cs.flips > 0
+             /\ cs' = [cs EXCEPT !.up[h] = ~@, !.flips = @ - 1,
+                                  !.p = [x \in ShProcs |-> IF cs.p[x].pc = "idle" THEN cs.p[x] ELSE [cs.p[x] EXCEPT !.stable = FALSE]]]
+ShardNext == /\ Family = "shard" /\ UNCHANGED <<sc, stage, alw>>
+             /\ \/ \E x \in ShProcs : ShBegin(x) \/ ShPick(x) \/ ShRd1(x) \/ ShRd2(x) \/ ShWr1(x) \/ ShWr2(x) \/ ShAsk(x) \/ ShFail(x)
+                \/ \E h \in Range(ShReps) : ShFlip(h)
+
+Init == stage = 0 /\ sc = <<>> /\ alw = {} /\ cs \in (IF Family = "shard" THEN ShardInits ELSE {<<>>})
+Next == Step1 \/ Step2 \/ Step3 \/ StepRand \/ ShardNext
 Spec == Init /\ [][Next]_vars
 
 (***************************************************************************)
@@ -451,33 +539,59 @@ IDsOnly(a) == [i \in 1..Len(a.ids) |-> <<a.ids[i][1], a.ids[i][2]>>]
 \* complete <=> every shard of the consulted tier answered; partial <=> some but not all; in both cases the
 \* IDs are the correct page of the merged FULL result sets of exactly the answering shards, and every ID is
 \* attributed to an answering host that really has it.  An incomplete result is never presented as complete.
+\* With ShuffleReplicas "answered" is relative to the order each shard's replicas were tried in: there is a draw
+\* under which all of this holds.
 Honest ==
   Final => \A a \in alw : a.kind # "error" =>
     LET T == TierShards(sc, a) IN
-    /\ (a.kind = "complete") = (\A i \in DOMAIN T : Answered(sc, T[i]))
-    /\ (a.kind = "partial") = ((\E i \in DOMAIN T : Answered(sc, T[i])) /\ (\E i \in DOMAIN T : ~Answered(sc, T[i])))
-    /\ IDsOnly(a) = RefIDs(sc, T)
-    /\ \A i \in DOMAIN a.ids : a.ids[i][3] \in AnsweringHosts(sc, T) /\ IDsOnly(a)[i] \in sc.data[a.ids[i][3]]
+    \E d \in Draws(sc, T) :
+    /\ (a.kind = "complete") = (\A i \in DOMAIN T : Answered(sc, T[i], d[i]))
+    /\ (a.kind = "partial") = ((\E i \in DOMAIN T : Answered(sc, T[i], d[i])) /\ (\E i \in DOMAIN T : ~Answered(sc, T[i], d[i])))
+    /\ IDsOnly(a) = RefIDs(sc, T, d)
+    /\ \A i \in DOMAIN a.ids : a.ids[i][3] \in AnsweringHosts(sc, T, d) /\ IDsOnly(a)[i] \in sc.data[a.ids[i][3]]
     /\ (a.api.grpc = "OK" /\ ~a.api.partial /\ a.api.code = "NO") =>
-          ((\A i \in DOMAIN T : Answered(sc, T[i])) /\ \A h \in AnsweringHosts(sc, T) : sc.sb[h] # "okerrs")
+          ((\A i \in DOMAIN T : Answered(sc, T[i], d[i])) /\ \A h \in AnsweringHosts(sc, T, d) : sc.sb[h] # "okerrs")
+
+\* When every host either answers or fails plainly, nothing but WHICH replicas answer decides the outcome -
+\* not the order they are listed or tried in, not ShuffleReplicas: complete iff every shard has a replica that
+\* answers, partial iff some but not all have, an error iff none has; every ID comes from a replica that answers
+\* and the IDs are the page of the merged FULL result sets of one answering replica per shard.
+OnlyWhoAnswers ==
+  (Final /\ \A h \in DOMAIN sc.sb : sc.sb[h] \in OkB \cup {"err"}) =>
+    LET T == sc.hot
+        live == {i \in DOMAIN T : UpOf(sc, T[i]) # {}}
+    IN /\ alw # {}
+       /\ \A a \in alw : a.cls \notin {"fetch", "panic"} =>
+            /\ a.kind = (IF live = DOMAIN T THEN "complete" ELSE IF live = {} THEN "error" ELSE "partial")
+            /\ a.kind # "error" =>
+                 \E pick \in [live -> HostsOf(T)] :
+                   /\ \A i \in live : pick[i] \in UpOf(sc, T[i])
+                   /\ (~sc.shuffle => \A i \in live : \A h \in UpOf(sc, T[i]) : ROf(T, pick[i]) <= ROf(T, h))
+                   /\ IDsOnly(a) = Take(Drop(Sorted(UNION {sc.data[pick[i]] : i \in live}, sc.req.order), sc.req.offset), sc.req.size)
+                   /\ \A i \in DOMAIN a.ids : a.ids[i][3] \in Range(pick)
+       \* and with ShuffleReplicas every replica that answers may be the one that is asked
+       /\ (sc.shuffle /\ live # {} /\ \A h \in DOMAIN sc.fb : sc.fb[h].k # "openerr") =>
+            \A pick \in {f \in [live -> HostsOf(T)] : \A i \in live : f[i] \in UpOf(sc, T[i])} :
+              \E a \in alw : a.kind # "error" /\
+                 IDsOnly(a) = Take(Drop(Sorted(UNION {sc.data[pick[i]] : i \in live}, sc.req.order), sc.req.offset), sc.req.size)
 
 \* the long-term stores are consulted exactly when a hot shard declares the range too old (and no shard
 \* forbids the request first)
 ColdWhenOld ==
   Final =>
     LET A == alw
-        old == \E i \in DOMAIN sc.hot : FirstSays(sc, sc.hot[i], OldB)
-        tmf == \E i \in DOMAIN sc.hot : FirstSays(sc, sc.hot[i], {"tmf"})
-    IN /\ (\E a \in A : a.tier = "cold") => (old /\ sc.cold # <<>>)
-       /\ (old /\ ~tmf /\ sc.cold # <<>>) => \A a \in A : a.kind # "error" => a.tier = "cold"
-       /\ (old /\ ~tmf /\ sc.cold = <<>>) => A = {ErrAlt("old")}
-       /\ (old /\ tmf) => ErrAlt("tmf") \in A
-       /\ (~old /\ tmf) => A = {ErrAlt("tmf")}
+        oldMay == MaySay(sc, sc.hot, OldB)       oldMust == MustSay(sc, sc.hot, OldB)
+        tmfMay == MaySay(sc, sc.hot, {"tmf"})    tmfMust == MustSay(sc, sc.hot, {"tmf"})
+    IN /\ (\E a \in A : a.tier = "cold") => (oldMay /\ sc.cold # <<>>)
+       /\ (oldMust /\ ~tmfMay /\ sc.cold # <<>>) => \A a \in A : a.kind # "error" => a.tier = "cold"
+       /\ (oldMust /\ ~tmfMay /\ sc.cold = <<>>) => A = {ErrAlt("old")}
+       /\ tmfMay => ErrAlt("tmf") \in A
+       /\ (~oldMay /\ tmfMust) => A = {ErrAlt("tmf")}
 
 \* with every shard answering and every stream intact there is exactly one kind of outcome: complete, all
 \* documents present
 AllUpIsComplete ==
-  (Final /\ (\A i \in DOMAIN sc.hot : Answered(sc, sc.hot[i])) /\ (\A h \in DOMAIN sc.fb : sc.fb[h] = FBok)) =>
+  (Final /\ (\A i \in DOMAIN sc.hot : AlwaysAnswers(sc, sc.hot[i])) /\ (\A h \in DOMAIN sc.fb : sc.fb[h] = FBok)) =>
      \A a \in alw : a.kind = "complete" /\ \A i \in DOMAIN a.docs : a.docs[i] = {BodyOf(IDsOnly(a)[i], a.ids[i][3])}
 
 \* family "store": a range that begins before the oldest fraction of a mature hot store may miss rotated
@@ -516,8 +630,37 @@ Deviations ==
        \/ PrintT(<<"DEV", ToJson([hint |-> sc.hint, fb |-> [h \in OpenSrcs(sc, QOf(a)) |-> sc.fb[h].k],
                                   panic |-> AlgoDocs(sc, QOf(a), perm, TRUE).p])>>))
 
+\* ---------------------------------------------------------------- Part 4: what TLC decides (Family = "shard")
+ShAskedHosts(q) == {q.asked[k][1] : k \in DOMAIN q.asked}
+\* the proxy's replica list of a shard is what it was configured with: no replica lost, none listed twice
+\* (whenever no search is between the two stores of a swap - the pinned searchShard never stores at all)
+ReplicaSetConstant ==
+  (Family = "shard" /\ \A x \in ShProcs : cs.p[x].pc # "wr2") =>
+     /\ Len(cs.hosts) = Len(ShReps)
+     /\ \A h \in Range(ShReps) : Cardinality({k \in DOMAIN cs.hosts : cs.hosts[k] = h}) = 1
+\* one search asks a replica at most once
+ShardEachOnce ==
+  Family = "shard" => \A x \in ShProcs : Cardinality(ShAskedHosts(cs.p[x])) = Len(cs.p[x].asked)
+\* "replicas tried until one answers": the shard is given up only after EVERY configured replica refused, and an
+\* answer is the answer of a replica that was up when asked, all replicas asked before it having refused
+ShardHonest ==
+  Family = "shard" => \A x \in ShProcs : LET q == cs.p[x] IN q.pc = "done" =>
+    /\ \A k \in 1..(Len(q.asked) - 1) : ~q.asked[k][2]
+    /\ (q.res = "fail") => (ShAskedHosts(q) = Range(ShReps) /\ \A k \in DOMAIN q.asked : ~q.asked[k][2])
+    /\ (q.res # "fail") => (q.asked # <<>> /\ q.asked[Len(q.asked)] = <<q.res, TRUE>>)
+\* a search that ran under one failure pattern is the atomic step Part 1 takes it for: its result is ShardRes of
+\* the pattern under the order it drew, whatever the other searches did meanwhile; in particular it fails iff
+\* no replica of the shard is up
+ShardSummary ==
+  Family = "shard" => \A x \in ShProcs : LET q == cs.p[x] IN (q.pc = "done" /\ q.stable) =>
+    LET sb == [h \in Range(ShReps) |-> IF cs.up[h] THEN "ok" ELSE "err"] IN
+    /\ (q.res = "fail") = (\A h \in Range(ShReps) : ~cs.up[h])
+    /\ (q.res # "fail") => cs.up[q.res]
+    /\ ~InPlace => LET r == ShardRes(sb, ShReps, q.idx) IN
+                   (r.k = "fail" /\ q.res = "fail") \/ (r.k = "ans" /\ r.host = q.res)
+
 HostAns(s) == [h \in DOMAIN s.sb |-> Ans(s, h)]
-Emit == Final => PrintT(<<"CASE", ToJson([hot |-> sc.hot, cold |-> sc.cold, hotread |-> sc.hotread, req |-> sc.req,
+Emit == Final => PrintT(<<"CASE", ToJson([hot |-> sc.hot, cold |-> sc.cold, hotread |-> sc.hotread, shuffle |-> sc.shuffle, req |-> sc.req,
                                           hint |-> sc.hint, sb |-> sc.sb, ans |-> HostAns(sc), store |-> sc.store, fbk |-> [h \in DOMAIN sc.fb |-> sc.fb[h].k],
                                           fetch |-> FetchTable(sc), allowed |-> alw])>>)
 =============================================================================
